@@ -205,11 +205,18 @@ def stage_lr(work, tier, seed):
     cases = []
     inputs = {}
     gtext = {}
-    for gid, g, tags in corpus(tier, seed):
+    variants = []
+    for n, (gid, g, tags) in enumerate(corpus(tier, seed)):
+        variants.append((gid, g, tags, ("lalr", "pager"), gid))
+        # the same grammar with a user Layout rule (white space / line comments / nested comments)
+        if "curated" in tags or n % 4 == 0:
+            kind = ("ws", "line", "block")[n % 3]
+            variants.append(("%s+lay:%s" % (gid, kind), G.with_layout(g, kind), tags, ("pager",), gid))
+    for gid, g, tags, tts, base in variants:
         text = G.render(g)
-        for tt in ("lalr", "pager"):
+        for tt in tts:
             cid = "%s|%s" % (gid, tt)
-            nod = tab["nodis"].get(cid)
+            nod = tab["nodis"].get("%s|%s" % (base, tt))
             if nod is None:
                 continue  # grammar rejected by the compiler
             rng = random.Random("%s-%d" % (cid, seed))
@@ -217,8 +224,9 @@ def stage_lr(work, tier, seed):
             iid = 0
             for toks, kind in gen_inputs(g, rng, n_sent, n_mut):
                 iid += 1
-                text_in, lex = G.render_input(g, toks, rng, lead=rng.choice(["", "", " ", "\n"]),
-                                              trail=rng.choice(["", "", " ", "\n", " \n"]))
+                seps = G.layout_seps(g, rng, len(toks) + 2)
+                text_in, lex = G.render_input(g, toks, rng, seps=seps[2:] or [" "], lead=seps[0],
+                                              trail=seps[1])
                 for partial in (False, True):
                     ins.append({"iid": iid, "text": text_in, "lex": lex, "partial": partial,
                                 "meta": {"kind": kind}})
